@@ -319,6 +319,10 @@ type c02Case struct {
 	Example int         `json:"example,omitempty"`
 	From    string      `json:"from,omitempty"`  // generator configuration
 	Lines   [][]cmPiece `json:"lines,omitempty"` // gen: the abstract lines (for cause analysis)
+	// BlockSem documents with tabs: the same document with the tabs next to list markers written
+	// as spaces (same columns), and its prescribed rendering (for cause analysis)
+	AltSource rawDoc `json:"alt_source,omitempty"`
+	AltExpect string `json:"alt_expect,omitempty"`
 }
 
 func (p cmPiece) MarshalJSON() ([]byte, error) { return json.Marshal([]interface{}{p.N, p.S}) }
@@ -614,6 +618,23 @@ func igCfg(budget int, sim, small bool, atoms string) string {
 
 const igAll = `{"word","esc","emph","code","link","ref","auto","raw","break"}`
 
+func nestCfg(depth int) string {
+	return fmt.Sprintf("CONSTANTS\n  MaxDepth = %d\n  Emit = TRUE\nINIT Init\nNEXT Next\nINVARIANT AtMostOneLink\nCHECK_DEADLOCK FALSE\n", depth)
+}
+
+// nestCases: a nest alone in a paragraph, after a word, between words, and inside a block quote.
+func nestCases(n [2]string, from string) []c02Case {
+	mk := func(v, src, exp string) c02Case {
+		return c02Case{Kind: "gen", Source: rawDoc(src), Expect: exp, Variant: "nest/" + v, From: from}
+	}
+	return []c02Case{
+		mk("para", n[0]+"\n", "<p>"+n[1]+"</p>"),
+		mk("after-word", "x "+n[0]+"\n", "<p>x "+n[1]+"</p>"),
+		mk("between", "x "+n[0]+" y\n", "<p>x "+n[1]+" y</p>"),
+		mk("quote-item", "> - "+n[0]+"\n", "<blockquote><ul><li>"+n[1]+"</li></ul></blockquote>"),
+	}
+}
+
 type bsConfig struct {
 	alpha string
 	lines int
@@ -625,13 +646,13 @@ type bsConfig struct {
 // laws (quote prefix = C08, concatenation = C09) are evaluated by TLC where laws is set.
 func bsConfigs(c *Ctx) []bsConfig {
 	if c.Thorough() {
-		return []bsConfig{{"tiny", 6, true, 0}, {"small", 4, false, 0}, {"small", 3, true, 0}, {"lists", 4, false, 0}, {"lists", 3, true, 0}, {"quotes", 3, true, 0}, {"leaves", 3, false, 0}, {"leaves", 2, true, 0}, {"wide", 2, true, 0}}
+		return []bsConfig{{"tiny", 6, true, 0}, {"small", 4, false, 0}, {"small", 3, true, 0}, {"lists", 4, false, 0}, {"lists", 3, true, 0}, {"quotes", 3, true, 0}, {"leaves", 3, false, 0}, {"leaves", 2, true, 0}, {"wide", 2, true, 0}, {"html", 3, true, 0}, {"tabs", 2, false, 0}, {"tabs2", 3, false, 0}}
 	}
-	return []bsConfig{{"tiny", 4, true, 0}, {"small", 3, true, 0}, {"lists", 3, false, 0}, {"quotes", 2, true, 0}, {"leaves", 2, true, 0}, {"wide", 2, false, 0}}
+	return []bsConfig{{"tiny", 4, true, 0}, {"small", 3, false, 0}, {"small", 2, true, 0}, {"lists", 3, false, 0}, {"quotes", 2, true, 0}, {"leaves", 2, false, 0}, {"html", 2, true, 0}, {"tabs2", 2, false, 0}}
 }
 
 func bsSimConfigs(c *Ctx) []bsConfig {
-	return []bsConfig{{"wide", 6, false, c.Pick(16000, 400000)}, {"lists", 8, false, c.Pick(16000, 400000)}, {"small", 7, false, c.Pick(8000, 200000)}}
+	return []bsConfig{{"wide", 6, false, c.Pick(16000, 400000)}, {"lists", 8, false, c.Pick(8000, 400000)}, {"small", 7, false, c.Pick(6000, 200000)}, {"html", 6, false, c.Pick(8000, 300000)}, {"tabs", 5, false, c.Pick(12000, 400000)}}
 }
 
 func bsCfg(alpha string, lines int, sim, laws bool) string {
@@ -689,6 +710,12 @@ func runC02(c *Ctx) {
 			sig = s
 		} else if s, ok := c02EOFCause(c02Config.build(), cs); ok {
 			sig = s
+		} else if len(cs.AltSource) > 0 {
+			// fails as written, conforms once the tabs next to list markers are spaces: the list
+			// parser's byte-based measurement of the white space around a marker
+			if ok, _ := c02Check(c02Config.build(), c02Case{Kind: "gen", Source: cs.AltSource, Expect: cs.AltExpect}); ok {
+				sig = "C02/tabs/list-marker-columns"
+			}
 		}
 		c.Report(Violation{Signature: sig, Detail: detail, Replay: cs})
 	}
@@ -729,6 +756,7 @@ func runC02(c *Ctx) {
 	)
 	gens = append(gens, c02Gen{fmt.Sprintf("InlineSem every line of up to %d tokens (reference delimiter-run algorithm)", c.Pick(5, 6)), "InlineSem",
 		fmt.Sprintf("CONSTANTS\n  MaxLen = %d\n  MaxRun = 3\n  Emit = TRUE\nINIT Init\nNEXT Next\nINVARIANT Balanced\nCHECK_DEADLOCK FALSE\n", c.Pick(5, 6)), "", 0, 60 * time.Minute})
+	gens = append(gens, c02Gen{fmt.Sprintf("NestGen every nest of up to %d inline containers (links never contain links)", c.Pick(5, 7)), "NestGen", nestCfg(c.Pick(5, 7)), "", 0, 30 * time.Minute})
 	for _, b := range bsConfigs(c) {
 		gens = append(gens, c02Gen{fmt.Sprintf("BlockSem alphabet %s, every document of up to %d lines (reference block-structure semantics)", b.alpha, b.lines), "BlockSem", bsCfg(b.alpha, b.lines, false, b.laws), "", 0, 60 * time.Minute})
 	}
@@ -745,7 +773,8 @@ func runC02(c *Ctx) {
 		}
 		var docs []cmDoc
 		var idocs []igDoc
-		var sems, bsems [][2]string
+		var sems, nests [][2]string
+		var bsems [][4]string
 		nskip := 0
 		seen := map[string]bool{}
 		workers := 8
@@ -761,9 +790,11 @@ func runC02(c *Ctx) {
 				seen[k] = true
 				if g.module == "BlockSem" {
 					var d struct {
-						Src  string `json:"src"`
-						HTML string `json:"html"`
-						Skip bool   `json:"skip"`
+						Src    string `json:"src"`
+						HTML   string `json:"html"`
+						Skip   bool   `json:"skip"`
+						SrcSp  string `json:"srcsp"`
+						HTMLSp string `json:"htmlsp"`
 					}
 					if err := json.Unmarshal(raw, &d); err != nil {
 						infra("bad BlockSem document: %v: %s", err, clip(k, 300))
@@ -772,7 +803,18 @@ func runC02(c *Ctx) {
 						nskip++
 						return
 					}
-					bsems = append(bsems, [2]string{d.Src, d.HTML})
+					bsems = append(bsems, [4]string{d.Src, d.HTML, d.SrcSp, d.HTMLSp})
+					return
+				}
+				if g.module == "NestGen" {
+					var d struct {
+						Src  string `json:"src"`
+						HTML string `json:"html"`
+					}
+					if err := json.Unmarshal(raw, &d); err != nil {
+						infra("bad NestGen line: %v: %s", err, clip(k, 300))
+					}
+					nests = append(nests, [2]string{d.Src, d.HTML})
 					return
 				}
 				if g.module == "InlineSem" {
@@ -816,20 +858,26 @@ func runC02(c *Ctx) {
 			}
 		})
 		parallelFor(len(bsems), func(i int) {
-			judge(c02Case{Kind: "gen", Source: rawDoc(bsems[i][0]), Expect: bsems[i][1], Variant: "blocksem", From: g.name})
+			judge(c02Case{Kind: "gen", Source: rawDoc(bsems[i][0]), Expect: bsems[i][1], Variant: "blocksem", From: g.name, AltSource: rawDoc(bsems[i][2]), AltExpect: bsems[i][3]})
 			// without the final line ending: only when the last line is not empty (else a line would disappear)
 			if i%5 == 0 && strings.HasSuffix(bsems[i][0], "\n") && !strings.HasSuffix(bsems[i][0], "\n\n") && bsems[i][0] != "\n" {
-				judge(c02Case{Kind: "gen", Source: rawDoc(strings.TrimSuffix(bsems[i][0], "\n")), Expect: bsems[i][1], Variant: "blocksem/no-final-newline", From: g.name})
+				judge(c02Case{Kind: "gen", Source: rawDoc(strings.TrimSuffix(bsems[i][0], "\n")), Expect: bsems[i][1], Variant: "blocksem/no-final-newline", From: g.name,
+					AltSource: rawDoc(strings.TrimSuffix(bsems[i][2], "\n")), AltExpect: bsems[i][3]})
+			}
+		})
+		parallelFor(len(nests), func(i int) {
+			for _, cs := range nestCases(nests[i], g.name) {
+				judge(cs)
 			}
 		})
 		if g.module == "BlockSem" {
 			ev.Add("blocksem_documents", int64(len(bsems)))
 			ev.Add("blocksem_documents_skipped_as_not_literal", int64(nskip))
 		}
-		if len(docs)+len(idocs)+len(sems)+len(bsems) == 0 {
+		if len(docs)+len(idocs)+len(sems)+len(bsems)+len(nests) == 0 {
 			infra("%s: no documents generated\n%s", g.name, r.Tail)
 		}
-		ev.Add("generated_documents", int64(len(docs)+len(idocs)+len(sems)+len(bsems)))
+		ev.Add("generated_documents", int64(len(docs)+len(idocs)+len(sems)+len(bsems)+len(nests)))
 		parallelFor(len(idocs), func(i int) {
 			cases := igCases(idocs[i], i, g.name)
 			for k, cs := range cases {
